@@ -533,6 +533,20 @@ func runC15(t *testing.T, d *sim.D) {
 				if crash != nil {
 					d.Fault(kind)
 					d.Logf("%s in %s at storage call +%d (%s) -> restart", kind, inner.Op, s.Arg(0), crash.Op)
+					if inner.Op == "decided" {
+						// the crash may have come after the certificate had become durable: what the node
+						// has learned as decided is what its database holds
+						off := inner.Arg(0) % 8
+						st := ibftstorage.New(c.inner, c.role.String())
+						mid := msgID(c.w.ks, c.role)
+						if si, err := st.GetInstance(mid[:], specqbft.Height(c.slot(off))); err == nil && si != nil && si.DecidedMessage != nil && off > c.decidedMax {
+							c.decidedMax = off
+							d.Probe("certificate-durable-before-crash")
+						}
+						if hoff, _, ok := c.storedHighest(); ok && hoff > c.decidedMax {
+							c.decidedMax = hoff
+						}
+					}
 					c.step(sim.Step{Op: "restart"})
 				} else {
 					if fired {
